@@ -80,6 +80,12 @@ class CloneGen:
             for ctx in ("enter", "exit", "recur"):
                 if r.random() < 0.8:
                     fr[ctx].append(rec(self.tag(ctx[0] + fn + "_")))
+            # several actions per context (a clone must carry all of them, in order)
+            if r.random() < 0.5:
+                fr["exit"].append(rec(self.tag("x2" + fn + "_")))
+            if r.random() < 0.3:
+                fr["renter"].append(rec(self.tag("re" + fn + "_")))
+                fr["rexit"].append(rec(self.tag("rx" + fn + "_")))
             frames.append(fr)
         for i, fr in enumerate(frames):
             kids = [g["name"] for g in frames if g["over"] == fr["name"]]
